@@ -442,9 +442,18 @@ impl Store {
     pub fn wait_idle(&self, timeout_ms: u64) -> bool {
         let t0 = std::time::Instant::now();
         let mut spins = 0u32;
+        let mut last_alive_check = 0u128;
         while !self.idle() {
-            if t0.elapsed().as_millis() as u64 > timeout_ms {
+            let el = t0.elapsed().as_millis();
+            if el as u64 > timeout_ms {
                 return false;
+            }
+            // no flush-worker thread left in this process: nothing will ever process the queue
+            if el >= last_alive_check + 50 {
+                last_alive_check = el;
+                if !trace::any_worker_thread_alive() {
+                    return self.idle();
+                }
             }
             spins += 1;
             if spins < 200 {
